@@ -1,5 +1,5 @@
 //@file src/half_connection/packet_receiver/mod.rs
-//@props C03 C06 C01
+//@props C03 C06 C01 C02 C04
 // T9 cover for the trusted contract of PacketReceiver::new (contracts/packet_receiver.vspec): TESTED on samples, not proved.
 #[cfg(test)]
 mod verif_t9_packet_receiver_new {
